@@ -1,4 +1,5 @@
 import RawPanelVerif.Gen.Consts
+import RawPanelVerif.Base.Bytes
 /-!
 # Net model — data path of `ConnectToPanel` (connecttopanel.go) and of
 # `AutoDetectIfPanelEncodingIsBinary` (rawpanelhelpers.go)
@@ -9,12 +10,19 @@ One definition per piece of Go control flow, same order of effects.
                            limit check, `make`, `io.ReadFull` of the payload, delivery.  `io.ReadFull(conn, buf)`
                            is modelled by its contract: it returns when exactly `len buf` bytes of the stream
                            have been consumed, however the stream was cut into segments.
-* `tstep` / `step` / `runT` the same loop with the read deadline as explicit state (`SetReadDeadline(time.Time{})`
-                           before each header, `SetReadDeadline(now+2s)`), as an LTS with labels `arrive`,
-                           `expire`, `peerClose`, and as a deterministic run over a timed script.
-* `asciiStep` / `asciiFeed` ASCII read loop (206-223): `bufio.ReadString('\n')` + `strings.TrimSpace`.
-* `writeOne` / `WSt`       the writer goroutine (135-170).
-* `classifyClient`, `classifyDetector`  probe reply classification (90-130, rawpanelhelpers.go 701-738).
+* `Cfg` / `DlOp`            every `Set…Deadline` call site of the reader (88, 117, 184, 188, 198) as a field: which
+                           call (`SetReadDeadline` / `SetDeadline`, clear / arm) sits there, or none.  `repaired` = the
+                           code as it is, `pinned` = the pinned tree (no call at 188).
+* `stepByteT` / `tstep` / `step` / `runT`   the same loop with the connection's read and write deadline as explicit
+                           state and the deadline calls in program order; as an LTS with labels `enter` (117 … 184),
+                           `arrive`, `expire`, `peerClose`, `cancel`, `teardown` and *urgent* time (nothing but `expire`
+                           happens at or after an armed deadline), and as a deterministic run over a timed script.
+* `asciiStep` / `asciiFeed` / `runA`   ASCII read loop (216-230): `bufio.ReadString('\n')` + `strings.TrimSpace`
+                           (Unicode white space, `Base/Bytes.lean`), with the read deadline lines 88/117 leave behind.
+* `writeOne` / `writeBytes`  what the writer goroutine (138-174) puts on the wire for a message list; the writer as an
+                           LTS is in `Model/NetWriter.lean`.
+* `classifyClient`, `classifyDetector`, `replyOf`  probe reply classification (90-130, rawpanelhelpers.go 694-752) and
+                           what the single probe `Read` returns given the reply delay and the probe timeout.
 
 Opaque parameters (supplied by the harness, never interpreted here): `proto.Marshal` bytes of submitted
 messages, converter lines, the decoder applied to a delivered payload / line.
@@ -122,43 +130,128 @@ def allocs : List Eff → List Nat
   | .alloc n :: r => n :: allocs r
   | .deliver _ :: r => allocs r
 
-/-! ## Binary reader with the read deadline as state -/
+/-! ## The connection's deadlines and the reader's `Set…Deadline` calls
 
-structure Cfg where
-  /-- `true`: repaired code (first header byte without deadline, then 2 s for the rest of the header; the
-  payload read re-arms 2 s).  `false`: pinned code (whole header without deadline). -/
-  armInHeader : Bool
+A `net.Conn` has a read and a write deadline.  `SetReadDeadline` touches the first, `SetDeadline` both.  Every call
+site of the reader (connecttopanel.go 88, 117, 184, 188, 198) is a field of `Cfg`, so that "this call is missing",
+"this call sits elsewhere" or "this call is `SetDeadline`" are *configurations*, and the theorems say for which
+configurations they hold (`repaired` = the code as it is). -/
+
+inductive DlKind
+  | read      -- `SetReadDeadline`
+  | both      -- `SetDeadline`
   deriving DecidableEq, Repr
 
-def repaired : Cfg := ⟨true⟩
-def pinned : Cfg := ⟨false⟩
+inductive DlOp
+  | skip                          -- no call at this place
+  | clear (k : DlKind)            -- `Set…Deadline(time.Time{})`
+  | arm (k : DlKind) (ms : Nat)   -- `Set…Deadline(time.Now().Add(ms))`
+  deriving DecidableEq, Repr
+
+structure Deadlines where
+  rd : Option Nat := none     -- read deadline (absolute ms); `none` = cleared
+  wr : Option Nat := none     -- write deadline
+  deriving DecidableEq, Repr
+
+def DlOp.apply (now : Nat) : DlOp → Deadlines → Deadlines
+  | .skip, d => d
+  | .clear .read, d => { d with rd := none }
+  | .clear .both, _ => ⟨none, none⟩
+  | .arm .read ms, d => { d with rd := some (now + ms) }
+  | .arm .both ms, _ => ⟨some (now + ms), some (now + ms)⟩
+
+def applyOps (now : Nat) : List DlOp → Deadlines → Deadlines
+  | [], d => d
+  | op :: r, d => applyOps now r (op.apply now d)
+
+/-- the probe read deadline in ms (connecttopanel.go 88), regenerated from the source -/
+def probeTimeout : Nat := Gen.clientProbeTimeoutMs
+
+/-- the deadline calls of `ConnectToPanel`, by call site -/
+structure Cfg where
+  probeArm : DlOp      -- 88   before the probe `Read`
+  afterProbe : DlOp    -- 117  after the probe `Read`, both modes ("Reset - necessary for ASCII line reading")
+  loopTop : DlOp       -- 184  top of the binary read loop
+  hdrRest : DlOp       -- 188  after the first header byte
+  payload : DlOp       -- 198  before the payload read
+  afterPayload : DlOp := .skip   -- a call right after the payload read (the code has none)
+  zeroShortcut : Bool := false   -- an empty frame is delivered without passing 198 / 199 / `afterPayload` (it is not)
+  deriving DecidableEq, Repr
+
+/-- the code as it is -/
+def repaired : Cfg :=
+  { probeArm := .arm .read probeTimeout, afterProbe := .clear .read, loopTop := .clear .read,
+    hdrRest := .arm .read frameTimeout, payload := .arm .read frameTimeout }
+/-- the pinned code (whole header read without deadline) -/
+def pinned : Cfg := { repaired with hdrRest := .skip }
+
+def Cfg.ops (c : Cfg) : List DlOp := [c.probeArm, c.afterProbe, c.loopTop, c.hdrRest, c.payload, c.afterPayload]
+
+def DlOp.readOnly : DlOp → Bool
+  | .clear .both => false
+  | .arm .both _ => false
+  | _ => true
+
+/-! ## Binary reader with the deadlines as state -/
+
+/-- `stepByte` with the deadline calls in program order: the byte `b` is consumed at time `now`, then the loop
+runs on to its next blocking read.  State and effects are those of `stepByte` (`stepByteT_eq`). -/
+def stepByteT (cfg : Cfg) (now : Nat) (s : RState) (b : UInt8) (dl : Deadlines) : RState × Deadlines × List Eff :=
+  match s with
+  | .waitHdr rgot =>
+    let rgot' := b :: rgot
+    -- 186-188: the first header byte has arrived
+    let dl1 := if rgot = [] then cfg.hdrRest.apply now dl else dl
+    if rgot'.length < 4 then (.waitHdr rgot', dl1, [])
+    else
+      let len := le32 rgot'.reverse
+      if len < limit then
+        if len = 0 then
+          -- 198, 199 (`ReadFull` of 0 bytes returns at once), 206, then 184
+          if cfg.zeroShortcut then (.waitHdr [], cfg.loopTop.apply now dl1, [.alloc 0, .deliver []])
+          else (.waitHdr [], cfg.loopTop.apply now (cfg.afterPayload.apply now (cfg.payload.apply now dl1)),
+                [.alloc 0, .deliver []])
+        else (.waitPayload len [], cfg.payload.apply now dl1, [.alloc len])                    -- 198
+      else (.stopped (.overLimit len), dl1, [])
+  | .waitPayload need rgot =>
+    if need ≤ 1 then
+      (.waitHdr [], cfg.loopTop.apply now (cfg.afterPayload.apply now dl), [.deliver (b :: rgot).reverse])  -- 206, 184
+    else (.waitPayload (need - 1) (b :: rgot), dl, [])
+  | .stopped w => (.stopped w, dl, [])
+
+def RState.live : RState → Bool
+  | .stopped _ => false
+  | _ => true
 
 structure CState where
   r : RState
-  dl : Option Nat      -- armed read deadline (absolute ms); `none` = cleared (`time.Time{}`)
-  last : Nat           -- time the last byte was consumed (connection start if none yet)
+  dl : Deadlines
+  entered : Bool       -- lines 117-184 have run: the read loop is at its first blocking read
+  last : Nat           -- time the last byte was consumed (loop entry if none yet)
   clock : Nat
   fstart : Nat         -- ghost: time the first byte of the current (or last) frame was consumed
+  exit : Bool          -- the `exit` flag (set only by the context-cancel branch of the writer goroutine, 146-150)
+  reported : Option Bool   -- argument of `ondisconnect`, once it has been called (237-239)
   deriving DecidableEq, Repr
 
-def CState.init (t0 : Nat) : CState := ⟨.init, none, t0, t0, t0⟩
+/-- the connection when the probe `Read` has returned: the probe deadline (armed at `tp`) is still in force -/
+def CState.probed (cfg : Cfg) (tp : Nat) : CState :=
+  ⟨.init, cfg.probeArm.apply tp {}, false, tp, tp, tp, false, none⟩
 
-/-- the deadline in force after a byte was consumed at time `now` -/
-def nextDl (cfg : Cfg) (now : Nat) (before after : RState) (dl : Option Nat) : Option Nat :=
-  match after with
-  | .waitHdr [] => none                                   -- loop top: `SetReadDeadline(time.Time{})`
-  | .waitHdr (_ :: _) =>
-    match before with
-    | .waitHdr [] => if cfg.armInHeader then some (now + frameTimeout) else none   -- first header byte
-    | _ => dl
-  | .waitPayload _ [] => some (now + frameTimeout)        -- header complete: `SetReadDeadline(now + 2 s)`
-  | .waitPayload _ (_ :: _) => dl
-  | .stopped _ => none
+/-- lines 117 … 184: the deadline call after the probe, then the first pass through the loop top -/
+def enterLoop (cfg : Cfg) (now : Nat) (s : CState) : CState :=
+  { s with dl := applyOps now [cfg.afterProbe, cfg.loopTop] s.dl, entered := true, last := now, clock := now,
+           fstart := now }
+
+/-- the read loop at its first blocking read, probe at `tp`, loop entered at `now` -/
+def CState.start (cfg : Cfg) (tp now : Nat) : CState := enterLoop cfg now (CState.probed cfg tp)
 
 def tstep (cfg : Cfg) (now : Nat) (s : CState) (b : UInt8) : CState × List Eff :=
-  let r := stepByte s.r b
-  ({ r := r.1, dl := nextDl cfg now s.r r.1 s.dl, last := now, clock := now,
-     fstart := if s.r = .waitHdr [] then now else s.fstart }, r.2)
+  if s.r.live then
+    let r := stepByteT cfg now s.r b s.dl
+    ({ s with r := r.1, dl := r.2.1, last := now, clock := now,
+              fstart := if s.r = .waitHdr [] then now else s.fstart }, r.2.2)
+  else ({ s with clock := now }, [])      -- the loop has ended: nobody reads
 
 def feedT (cfg : Cfg) (now : Nat) : CState → Bytes → CState × List Eff
   | s, [] => (s, [])
@@ -182,28 +275,50 @@ def feedTFast (cfg : Cfg) (now : Nat) (s : CState) (bs : Bytes) : CState × List
 @[csimp] theorem feedT_eq_feedTFast : @feedT = @feedTFast := by
   funext cfg now s bs; simp [feedTFast, feedTTR_eq]
 
-def RState.live : RState → Bool
-  | .stopped _ => false
-  | _ => true
-
 inductive Lbl
+  | enter (now : Nat)                -- program: lines 117 … 184
   | arrive (now : Nat) (b : UInt8)   -- a byte reaches the reader (any segmentation, any spacing)
-  | expire (now : Nat)               -- the armed deadline has passed: the blocked `Read` returns a timeout
+  | expire (now : Nat)               -- the armed read deadline has passed: the blocked `Read` returns a timeout
   | peerClose (now : Nat)            -- EOF / reset
+  | cancel (now : Nat)               -- writer goroutine, context done: `exit.Store(true); conn.Close()`
+  | teardown (now : Nat)             -- main goroutine after the loop: `ondisconnect(exit.Load())`
   deriving DecidableEq, Repr
 
-/-- one LTS step; `none` = label not enabled -/
+/-- no armed read deadline has passed at `now` -/
+def notExpired (s : CState) (now : Nat) : Bool :=
+  match s.dl.rd with
+  | some d => decide (now < d)
+  | none => true
+
+/-- One LTS step; `none` = label not enabled.  Time is *urgent*: while the loop is blocked in a read with a deadline
+`d`, nothing but `expire` can happen at a time ≥ `d` — a byte (or a close) that comes at or after the deadline finds
+the read already returned with a timeout. -/
 def step (cfg : Cfg) (s : CState) : Lbl → Option (CState × List Eff)
+  | .enter now =>
+    if s.entered = false ∧ s.clock ≤ now then some (enterLoop cfg now s, []) else none
   | .arrive now b =>
-    if s.clock ≤ now then
-      (if s.r.live then some (tstep cfg now s b) else some ({ s with clock := now }, []))
+    if s.entered = true ∧ s.clock ≤ now ∧ (s.r.live = true → notExpired s now = true) then some (tstep cfg now s b)
     else none
   | .expire now =>
-    match s.dl with
-    | some d => if s.clock ≤ now ∧ d ≤ now ∧ s.r.live then some ({ s with r := .stopped .timeout, dl := none, clock := now }, []) else none
+    match s.dl.rd with
+    | some d =>
+      if s.entered = true ∧ s.clock ≤ now ∧ d ≤ now ∧ s.r.live = true then
+        some ({ s with r := .stopped .timeout, clock := now }, [])
+      else none
     | none => none
   | .peerClose now =>
-    if s.clock ≤ now ∧ s.r.live then some ({ s with r := .stopped .peerClosed, dl := none, clock := now }, []) else none
+    if s.entered = true ∧ s.clock ≤ now ∧ s.r.live = true ∧ notExpired s now = true then
+      some ({ s with r := .stopped .peerClosed, clock := now }, [])
+    else none
+  | .cancel now =>
+    if s.entered = true ∧ s.clock ≤ now ∧ (s.r.live = true → notExpired s now = true) then
+      -- our own `conn.Close()` makes a blocked read fail like a close by the peer
+      some ({ s with exit := true, r := if s.r.live then .stopped .peerClosed else s.r, clock := now }, [])
+    else none
+  | .teardown now =>
+    if s.entered = true ∧ s.clock ≤ now ∧ s.r.live = false ∧ s.reported = none then
+      some ({ s with reported := some s.exit, clock := now }, [])
+    else none
 
 def runL (cfg : Cfg) : CState → List Lbl → Option (CState × List Eff)
   | s, [] => some (s, [])
@@ -214,9 +329,6 @@ def runL (cfg : Cfg) : CState → List Lbl → Option (CState × List Eff)
       match runL cfg r1.1 ls with
       | none => none
       | some r2 => some (r2.1, r1.2 ++ r2.2)
-
-/-- argument of `ondisconnect`: the `exit` flag, set only by the context-cancel branch of the writer -/
-def disconnectArg (cancelled : Bool) (_why : Option Stop) : Bool := cancelled
 
 /-! ### Deterministic run over a timed script (trace validation) -/
 
@@ -237,16 +349,24 @@ structure Outcome where
 
 def absDiff (a b : Nat) : Nat := if a ≤ b then b - a else a - b
 
+/-- the armed deadline that has passed at `now`, if any -/
+def firedAt (rd : Option Nat) (now : Nat) : Option Nat :=
+  match rd with
+  | some dl => if dl ≤ now then some dl else none
+  | none => none
+
+def tightAt (margin : Nat) (rd : Option Nat) (now : Nat) : Bool :=
+  match rd with
+  | some dl => decide (absDiff dl now < margin)
+  | none => false
+
 def runT (cfg : Cfg) (margin : Nat) : CState → TScript → Outcome → Outcome
   | _, [], o => o
   | s, (d, a) :: rest, o =>
     let now := s.clock + d
+    let tight := o.tight || tightAt margin s.dl.rd now
     -- urgency: an armed deadline that has passed fires before anything later happens
-    let fired : Option Nat := match s.dl with
-      | some dl => if dl ≤ now then some dl else none
-      | none => none
-    let tight := o.tight || (match s.dl with | some dl => decide (absDiff dl now < margin) | none => false)
-    match fired with
+    match firedAt s.dl.rd now with
     | some dl => { o with stop := some (.timeout, dl), tight := tight }
     | none =>
       match a with
@@ -261,24 +381,9 @@ def runT (cfg : Cfg) (margin : Nat) : CState → TScript → Outcome → Outcome
 
 /-! ## ASCII reader -/
 
-/-- the white space `strings.TrimSpace` removes among single bytes < 0x80 -/
-def isSpace (b : UInt8) : Bool := b = 9 || b = 10 || b = 11 || b = 12 || b = 13 || b = 32
-
-def trimLeft : Bytes → Bytes
-  | [] => []
-  | b :: r => if isSpace b then trimLeft r else b :: r
-
-/-- drop trailing white space (structural from the front: a byte is kept iff something non-blank follows or it is non-blank) -/
-def trimRight : Bytes → Bytes
-  | [] => []
-  | b :: r =>
-    match trimRight r with
-    | [] => if isSpace b then [] else [b]
-    | r' => b :: r'
-
-/-- `strings.TrimSpace` on byte strings whose first/last non-blank bytes are ASCII (multi-byte Unicode blanks
-are outside the modelled domain) -/
-def trimSpace (l : Bytes) : Bytes := trimRight (trimLeft l)
+/-- `strings.TrimSpace`: white space is Go's `unicode.IsSpace` on UTF-8 (the six ASCII blanks, U+0085, U+00A0,
+U+1680, U+2000…U+200A, U+2028, U+2029, U+202F, U+205F, U+3000) -/
+def trimSpace (l : Bytes) : Bytes := RawPanelVerif.Bytes.trimSpace l
 
 /-- `ReadString('\n')`: state = bytes of the current unterminated line; on LF the trimmed line is delivered -/
 def asciiStep (buf : Bytes) (b : UInt8) : Bytes × List Bytes :=
@@ -298,20 +403,36 @@ def asciiFeedAll : Bytes → List Bytes → Bytes × List Bytes
     let r2 := asciiFeedAll r1.1 segs
     (r2.1, r1.2 ++ r2.2)
 
-/-- the one second the ASCII loop sleeps after EOF before the teardown (connecttopanel.go 214) -/
+/-- the one second the ASCII loop sleeps after EOF before the teardown (connecttopanel.go 222) -/
 def asciiEofSleep : Nat := Gen.clientAsciiEofSleepMs
 
-/-- ASCII run over a timed script: no deadline is armed in this mode (117), only `close` ends it -/
-def runA : Nat → Bytes → TScript → Outcome → Outcome × List Bytes → Outcome × List Bytes
-  | _, _, [], _, acc => acc
-  | clk, buf, (d, a) :: rest, o, acc =>
-    let now := clk + d
-    match a with
-    | .nothing => runA now buf rest o acc
-    | .close => ({ acc.1 with stop := some (.peerClosed, now + asciiEofSleep) }, acc.2)
-    | .bytes b =>
-      let r := asciiFeed buf b
-      runA now r.1 rest o (acc.1, acc.2 ++ r.2)
+/-- the ASCII read loop with the connection's read deadline: the loop itself never touches the deadline, so what
+is in force is what lines 88 and 117 left there -/
+structure AState where
+  buf : Bytes
+  rd : Option Nat
+  clock : Nat
+  deriving DecidableEq, Repr
+
+/-- the ASCII loop at its first `ReadString`: probe deadline armed at `tp`, line 117 executed at `now` -/
+def AState.start (cfg : Cfg) (tp now : Nat) : AState :=
+  ⟨[], (cfg.afterProbe.apply now (cfg.probeArm.apply tp {})).rd, now⟩
+
+/-- ASCII run over a timed script: a deadline left armed makes `ReadString` fail with a timeout (no EOF sleep
+then); `close` ends the loop after the EOF sleep -/
+def runA : AState → TScript → Outcome × List Bytes → Outcome × List Bytes
+  | _, [], acc => acc
+  | s, (d, a) :: rest, acc =>
+    let now := s.clock + d
+    match firedAt s.rd now with
+    | some dl => ({ acc.1 with stop := some (.timeout, dl) }, acc.2)
+    | none =>
+      match a with
+      | .nothing => runA { s with clock := now } rest acc
+      | .close => ({ acc.1 with stop := some (.peerClosed, now + asciiEofSleep) }, acc.2)
+      | .bytes b =>
+        let r := asciiFeed s.buf b
+        runA { s with buf := r.1, clock := now } rest (acc.1, acc.2 ++ r.2)
 
 /-! ## Writer goroutine -/
 
@@ -332,41 +453,6 @@ def writeOne : Mode → Submission → Bytes
   | .ascii, s => (s.lines.map (· ++ [10])).flatten
 
 def writeBytes (m : Mode) (subs : List Submission) : Bytes := (subs.map (writeOne m)).flatten
-
-/-- writer LTS: the channel hands submissions over in send order; one goroutine per connection takes them -/
-structure WSt where
-  pending : List Submission   -- sends in progress / buffered, in channel order
-  taken : List Submission     -- received by the writer so far
-  written : Bytes
-  inbound : Nat               -- bytes read from the panel so far (reader side; irrelevant to the writer)
-  deriving DecidableEq, Repr
-
-inductive WLbl
-  | submit (s : Submission)    -- some goroutine's `msgsToPanel <- s` is ordered into the channel
-  | take                       -- writer: `incomingMessages := <-msgsToPanel` and the `conn.Write`s of that list
-  | panelTraffic (n : Nat)     -- reader consumed n bytes from the panel
-  deriving DecidableEq, Repr
-
-def WSt.init : WSt := ⟨[], [], [], 0⟩
-
-def wstep (m : Mode) (s : WSt) : WLbl → Option WSt
-  | .submit x => some { s with pending := s.pending ++ [x] }
-  | .take =>
-    match s.pending with
-    | [] => none
-    | x :: r => some { s with pending := r, taken := s.taken ++ [x], written := s.written ++ writeOne m x }
-  | .panelTraffic n => some { s with inbound := s.inbound + n }
-
-def wrun (m : Mode) : WSt → List WLbl → Option WSt
-  | s, [] => some s
-  | s, l :: ls => match wstep m s l with
-    | none => none
-    | some s' => wrun m s' ls
-
-def submitted : List WLbl → List Submission
-  | [] => []
-  | .submit x :: r => x :: submitted r
-  | _ :: r => submitted r
 
 /-! ## Probe and classification -/
 
@@ -429,10 +515,24 @@ def classifyDetector : Reply → Verdict
     else ⟨true, [], []⟩
   | _ => ⟨false, [lf], []⟩
 
-/-- which `Reply` the single read sees: bytes sent `delay` ms after the probe -/
-def replyOf (delay : Nat) (reply : Option Bytes) (closes : Bool) (bufSize : Nat) : Reply :=
+/-- the detector's probe read deadline in ms (rawpanelhelpers.go 711), regenerated from the source -/
+def detectorTimeout : Nat := Gen.detectorProbeTimeoutMs
+
+/-- which `Reply` the single probe `Read` (deadline `timeout` ms after the probe) sees when the panel sends `reply`
+`delay` ms after the probe (and / or closes) -/
+def replyOf (timeout : Nat) (delay : Nat) (reply : Option Bytes) (closes : Bool) (bufSize : Nat) : Reply :=
   match reply with
-  | some b => if delay < frameTimeout then (if b.isEmpty then (if closes then .error else .timeout) else .bytes (b.take bufSize)) else .timeout
-  | none => if closes ∧ delay < frameTimeout then .error else .timeout
+  | some b =>
+    if delay < timeout then (if b.isEmpty then (if closes then .error else .timeout) else .bytes (b.take bufSize))
+    else .timeout
+  | none => if closes ∧ delay < timeout then .error else .timeout
+
+/-- the reconnecting client's probe read (connecttopanel.go 87-90) -/
+def clientReply (delay : Nat) (reply : Option Bytes) (closes : Bool) : Reply :=
+  replyOf probeTimeout delay reply closes Gen.clientProbeBuf
+
+/-- the stand-alone detector's probe read (rawpanelhelpers.go 710-714) -/
+def detectorReply (delay : Nat) (reply : Option Bytes) (closes : Bool) : Reply :=
+  replyOf detectorTimeout delay reply closes Gen.detectorProbeBuf
 
 end RawPanelVerif.Net
